@@ -545,14 +545,17 @@ def backward_offset_rule(repo: Repo, rep: Report, rid: str) -> None:
 
 
 def run(repo: Repo, rep: Report, tier: str) -> None:
-    unpack_defined_rule(repo, rep, "C03.R16")
-    bit_storage_type_rule(repo, rep, "C03.R17")
-    backward_offset_rule(repo, rep, "C03.R18")
-    block_alignment_rule(repo, rep, "C03.R12")
-    discriminator_rule(repo, rep, "C03.R13")
-    pointer_value_rule(repo, rep, "C03.R14")
-    advance_rule(repo, rep, "C03.R11")
-    positioning_rule(repo, rep, "C03.R8")
+    from .compiled import compiled_fold_rule, shape_rule
+
+    compiled_fold_rule(repo, rep, "C03.R24", tier)
+    shape_rule(repo, rep, tier, unpack_defined_rule, "C03.R16")
+    shape_rule(repo, rep, tier, bit_storage_type_rule, "C03.R17")
+    shape_rule(repo, rep, tier, backward_offset_rule, "C03.R18")
+    shape_rule(repo, rep, tier, block_alignment_rule, "C03.R12")
+    shape_rule(repo, rep, tier, discriminator_rule, "C03.R13")
+    shape_rule(repo, rep, tier, pointer_value_rule, "C03.R14")
+    shape_rule(repo, rep, tier, advance_rule, "C03.R11")
+    shape_rule(repo, rep, tier, positioning_rule, "C03.R8")
     from .c06 import unit_switch_rule
     from .c18 import offsets_before_compile_rule
 
@@ -562,7 +565,7 @@ def run(repo: Repo, rep: Report, tier: str) -> None:
     neutral_rule(repo, rep, "C03.R2")
     bookkeeping_rule(repo, rep, "C03.R3")
     call_time_rule(repo, rep, "C03.R4")
-    dispatch_rule(repo, rep, "C03.R5")
+    shape_rule(repo, rep, tier, dispatch_rule, "C03.R5")
     from .c08 import analyse_read_sites
     from ..callgraph import CallGraph as _CG
 
@@ -591,12 +594,12 @@ def run(repo: Repo, rep: Report, tier: str) -> None:
     from .c08 import generated_globals_rule
     from .c12 import delegation_rule
 
-    generated_globals_rule(repo, rep, "C03.R20")
+    shape_rule(repo, rep, tier, generated_globals_rule, "C03.R20")
     delegation_rule(repo, rep, "C03.R21")
     from .c08 import template_read_check_rule
 
-    template_read_check_rule(repo, rep, "C03.R22")
+    shape_rule(repo, rep, tier, template_read_check_rule, "C03.R22")
     from .c09 import absolute_padding_rule
 
-    absolute_padding_rule(repo, rep, "C03.R23")
+    shape_rule(repo, rep, tier, absolute_padding_rule, "C03.R23")
 
